@@ -30,6 +30,7 @@ class Recorder:
         self.inst = []         # C08 records
         self.unif = []         # C10 records
         self.ledger = []       # recent results of new(): (obj, deep snapshot)
+        self.receivers = []    # (constructor name, its supertypes, caller) of every new()
         self.rnd = _pyrandom.Random(run_seed ^ 0x9e3779b9)
         self.classes_seen = {}
 
@@ -108,6 +109,9 @@ def install():
         try:
             b_self = deep(self)
             b_args = tuple(deep(a) for a in type_args)
+            if len(r.receivers) < 3000:
+                r.receivers.append((self.name, tuple(tsnap(x) for x in self.supertypes),
+                                    prov._creator(2, 3)))
             probe = ledger_probe(r, True) if r.rnd.random() < 0.1 else None
             res = orig_new(self, type_args)
             r.c07_calls['new'] += 1
